@@ -140,6 +140,7 @@ type Engine struct {
 	initGlobals    map[*ssa.Package]map[*ssa.Global]bool
 	initDeny       map[string]bool
 	detSched       bool
+	preemptOK      map[*ssa.Function]bool
 	snapshot_      *initSnapshot
 	snapshotUnsafe bool
 	pathCopier     *copier
@@ -718,6 +719,13 @@ func (e *Engine) eq(a, b value) *Term {
 			r = And(r, e.eq(a[i], bs[i]))
 		}
 		return r
+	case byteArrayV:
+		bb := b.(byteArrayV)
+		r := TrueT
+		for i := range a.a.b {
+			r = And(r, Eq(a.a.b[i], bb.a.b[i]))
+		}
+		return r
 	case arrayV:
 		bs := b.(arrayV)
 		r := TrueT
@@ -1220,6 +1228,14 @@ func (e *Engine) exec(fr *frame, b *ssa.BasicBlock, instr ssa.Instruction) bool 
 					e.rtPanic("index out of range")
 				}
 				fr.env[in] = e.byteLoad(xv.arr, xv.off, idx)
+			case byteArrayV:
+				if idx.S.W != 64 {
+					idx = SExt(idx, 64)
+				}
+				if !e.decide(Ult(idx, BV(64, uint64(len(xv.a.b))))) {
+					e.rtPanic("index out of range")
+				}
+				fr.env[in] = e.byteLoad(xv.a, 0, idx)
 			case arrayV:
 				i := e.concretize(idx, 0, len(xv)-1)
 				if i < 0 || i >= len(xv) {
@@ -1399,6 +1415,11 @@ func assignInPlace(p *value, v value) {
 			}
 			return
 		}
+	case byteArrayV:
+		if old, ok := (*p).(byteArrayV); ok && len(old.a.b) == len(nv.a.b) {
+			copy(old.a.b, nv.a.b)
+			return
+		}
 	case arrayV:
 		if old, ok := (*p).(arrayV); ok && len(old) == len(nv) {
 			for i := range nv {
@@ -1467,6 +1488,12 @@ func (e *Engine) indexAddr(fr *frame, in *ssa.IndexAddr) value {
 	case *value: // pointer to array
 		if xv == nil {
 			e.rtPanic("nil pointer dereference")
+		}
+		if ba, ok := e.agg(xv).(byteArrayV); ok {
+			if !e.decide(Ult(idx, BV(64, uint64(len(ba.a.b))))) {
+				e.rtPanic("index out of range")
+			}
+			return &bytePtr{arr: ba.a, off: 0, idx: idx}
 		}
 		arr := e.agg(xv).(arrayV)
 		i := e.concretize(idx, 0, len(arr)-1)
@@ -1553,6 +1580,24 @@ func (e *Engine) slice(fr *frame, in *ssa.Slice) value {
 		}
 		return &sliceV{arr: xv.arr, off: xv.off + l, len: h - l, cap: xv.cap - l, isNil: xv.isNil && h == 0}
 	case *value: // *array
+		if ba, ok := e.agg(xv).(byteArrayV); ok {
+			n := len(ba.a.b)
+			l := 0
+			if lo != nil {
+				if !e.decide(Ule(lo, BV(64, uint64(n)))) {
+					e.rtPanic("slice bounds out of range")
+				}
+				l = e.concretize(lo, 0, n)
+			}
+			var ln *Term = BV(64, uint64(n-l))
+			if hi != nil {
+				if !e.decide(And(Ule(hi, BV(64, uint64(n))), Ule(BV(64, uint64(l)), hi))) {
+					e.rtPanic("slice bounds out of range")
+				}
+				ln = Sub(hi, BV(64, uint64(l)))
+			}
+			return &bytesV{arr: ba.a, off: l, n: ln, cap: n - l}
+		}
 		arr := e.agg(xv).(arrayV)
 		l, h := 0, len(arr)
 		if lo != nil {
@@ -1560,15 +1605,6 @@ func (e *Engine) slice(fr *frame, in *ssa.Slice) value {
 		}
 		if hi != nil {
 			h = e.concretize(hi, 0, len(arr))
-		}
-		if el := in.X.Type().Underlying().(*types.Pointer).Elem().Underlying().(*types.Array).Elem(); isByteElem(el) {
-			// snapshot (sound for the compiler's varargs temporaries; a general
-			// engine backs [N]byte by a byteArr so that the slice aliases the array)
-			ba := &byteArr{b: make([]*Term, len(arr))}
-			for i := range arr {
-				ba.b[i] = arr[i].(*Term)
-			}
-			return &bytesV{arr: ba, off: l, n: BV(64, uint64(h-l)), cap: len(arr) - l}
 		}
 		s := []value(arr)
 		return &sliceV{arr: &s, off: l, len: h - l, cap: len(arr) - l}
@@ -1693,7 +1729,12 @@ func (e *Engine) builtin(fr *frame, b *ssa.Builtin, c *ssa.CallCommon, args []va
 			return BV(64, uint64(x.live()))
 		case arrayV:
 			return BV(64, uint64(len(x)))
+		case byteArrayV:
+			return BV(64, uint64(len(x.a.b)))
 		case *value:
+			if ba, ok := e.agg(x).(byteArrayV); ok {
+				return BV(64, uint64(len(ba.a.b)))
+			}
 			return BV(64, uint64(len(e.agg(x).(arrayV))))
 		}
 	case "cap":
